@@ -23,6 +23,11 @@ def run_schedule(params: dict) -> dict:
     same_instant = rng.random() < 0.6
     pre_existing = rng.random() < 0.3
     chains = rng.choice(['default', 'default', 'keepdir'])
+    # history variant: the first download's file connection is reset before the first byte (it goes INCOMPLETE with
+    # an empty local file and keeps its path), the next equally named download starts meanwhile, then the first
+    # one is retried
+    hrng = random.Random(f"{seed}:C09:sched:hist:{params['i']}")
+    history = hrng.random() < 0.3
     tm = TransferMonitor()
     viol: list = []
     obs = {'schedule_runs': 0, 'open_intervals': 0, 'path_choices': 0, 'complete_compares': 0, 'overlap_checks': 0}
@@ -50,6 +55,9 @@ def run_schedule(params: dict) -> dict:
             up = Uploader(w, peer, 'dn', dn.port, rng, {path: data})
             up.offer_lat = 0.0 if same_instant else rng.choice([0.0, 0.01, 0.05, 0.2])
             up.chunk_gap = rng.choice([0.0, 0.01, 0.05])
+            if history and k == 0:
+                up.reset_first = hrng.choice([1, 1, 2])
+                up.retry_offer_lat = hrng.choice([0.5, 1.0, 2.0])
             ups.append(up)
         lat = rng.choice([0.0, 0.005]) if same_instant else None
         w.net.planner = lambda node, host, port, attempt: ConnPlan(
@@ -96,7 +104,11 @@ def run_schedule(params: dict) -> dict:
             transfers = []
             for k in range(n):
                 path, _ = contents[f'u{k}']
+                if history and k == 1:
+                    await asyncio.sleep(hrng.choice([0.2, 0.4, 0.8]))       # the first download has failed by now
                 transfers.append(await dn.call(dn.client.transfers.download(f'u{k}', path)))
+            if history:
+                runner.add_obs(res, 'schedule_histories_with_a_reset_before_the_first_byte')
 
             def on_edge(transfer, old, new):
                 if not transfer.is_download():
@@ -154,7 +166,7 @@ def run_schedule(params: dict) -> dict:
         runner.add_obs(res, k, v)
     order = [e[1:4] for e in trace if len(e) >= 4 and e[3] in ('DOWN', 'COMP')][:12] + [e[1] for e in trace if e[1] in ('open', 'close')][:8]
     if obs['path_choices'] >= 2:
-        res['csigs'].append(f"sched|{n}|{chains}|{pre_existing}|{same_instant}|{exec_delay}|{order}")
+        res['csigs'].append(f"sched|{n}|{chains}|{pre_existing}|{same_instant}|{exec_delay}|{history}|{order}")
     res['sample'] = {'kind': 'schedule', 'n': n, 'chains': chains, 'pre_existing': pre_existing,
                      'same_instant': same_instant, 'exec_delay': exec_delay, 'final': out.result, 'trace': trace[:30]}
     return res
